@@ -163,6 +163,9 @@ func (d *Disjunct) IsNilKnown(v ssa.Value) (bool, bool) {
 	return false, false
 }
 
+// NilLin returns the 0/1 term "v is nil" of a pointer, interface or slice value (nil when not tracked).
+func (d *Disjunct) NilLin(v ssa.Value) *lin.Lin { return d.it.repOf(d.d, d.f, v).isnil }
+
 // Entails reports whether the path condition entails all inequalities.
 func (d *Disjunct) Entails(qs ...lin.Ineq) bool { return d.it.entailsAll(d.d, qs) }
 
